@@ -310,7 +310,7 @@ PROPS = {
         "explanation": "C13.* + Tie.* theorems; ring stream: implementation vs exact arithmetic, vs the mirrored model, and the laws on the implementation's own outputs.",
     },
     "C07": {
-        "modules": ["RsddModel.Props.C07Bdd", "RsddModel.Props.C07Sdd", "RsddModel.Props.TieSem", "RsddModel.Props.TieFF", "RsddModel.Props.TieOptim", "RsddModel.Props.TieScratch", "RsddModel.Props.TieScratchSource", "RsddModel.Props.TieSddQ"],
+        "modules": ["RsddModel.Props.C07Bdd", "RsddModel.Props.C07Sdd", "RsddModel.Props.TieSem", "RsddModel.Props.TieFF", "RsddModel.Props.TieOptim", "RsddModel.Props.TieScratch", "RsddModel.Props.TieScratchSource", "RsddModel.Props.TieSddQ", "RsddModel.Props.TieSddQSource"],
         "streams": [WMC_STREAM, HASH_STREAM],
         "rule": "diagrams taken from builder pools (three largest distinct + one random per program), random orders; normalised field weights for a "
                 "random exported prime, arbitrary integer weights 0..5, dyadic real weights; non-trivial = diagram has a node below a node",
@@ -417,7 +417,7 @@ PROPS = {
         "explanation": "C06.* theorems; td stream: implementation vs brute force (models, is_false, once-per-path, all conditionings), vs mirrored compiler on mirrored propagator.",
     },
     "C10": {
-        "modules": ["RsddModel.Props.C10", "RsddModel.Props.C10Sdd", "RsddModel.Props.TieScratch", "RsddModel.Props.TieScratchSource", "RsddModel.Props.TieSddQ"],
+        "modules": ["RsddModel.Props.C10", "RsddModel.Props.C10Sdd", "RsddModel.Props.TieScratch", "RsddModel.Props.TieScratchSource", "RsddModel.Props.TieSddQ", "RsddModel.Props.TieSddQSource"],
         "streams": [QUERY_STREAM],
         "rule": "a builder program, then 4-14 queries drawn from {count in FiniteField, count in reals, evaluate, count_nodes, semantic_hash, marginal_map, "
                 "smooth, condition} on the five largest distinct diagrams of the pool (they share nodes); each answer is compared with the same query "
